@@ -430,6 +430,39 @@ def main_check(mod, argv):
         i, k, c = cases[0]
         samples.append({"case": c, "impl": next(iter(impl_out.values())).get(i) if impl_out else None,
                         "model": model_out.get(i) if model_out else None})
+    # 5b. failing-input search escalation: something no longer checks, but the quick case set found no concrete input:
+    # run the thorough generator (more boundary classes, 10^5..10^6 random cases) as the search, release profile only.
+    search_info = None
+    if proof_broken and not a.replay and tier == "quick" and not [v for v in violations if not v.get("no_input")] \
+            and oracle and exes and os.environ.get("VERIF_NO_ESCALATE") != "1":
+        t_s = time.time()
+        srng = random.Random(seed + 1)
+        sgen = list(mod.cases("thorough", srng))
+        scases = [("s%d" % i, k, c) for i, (k, c) in enumerate(sgen)]
+        slines = ["%s %s" % (i, c) for i, k, c in scases]
+        prof = "release" if "release" in exes else next(iter(exes))
+        s_to = getattr(mod, "RUN_TIMEOUT", {"quick": 600, "thorough": 3000})["thorough"]
+        sres, err, dt = run_lines(exes[prof], [], slines, s_to, getattr(mod, "ENV", None))
+        smod, err2, dt2 = run_lines(oracle, [], slines, s_to)
+        found = 0
+        if sres is not None and smod is not None:
+            for i, k, c in scases:
+                r, m = sres.get(i), smod.get(i)
+                if r is None or m is None:
+                    continue
+                why = compare(c, r, m) if compare else (None if r == m else "implementation and model/spec differ")
+                if why is None:
+                    continue
+                key = fkey(c, r, m) if fkey else None
+                if key is not None and [f for f in kf if f[1] == key]:
+                    continue
+                found += 1
+                mismatches += 1
+                if len(violations) < 20:
+                    violations.append({"kind": "impl-vs-model", "case": c, "class": k, "profile": prof, "impl": r,
+                                       "model": m, "why": why, "found_by": "search escalation (thorough generator)"})
+        search_info = {"cases": len(scases), "found": found, "wall_s": round(time.time() - t_s, 1),
+                       "completed": sres is not None and smod is not None}
     extra = getattr(mod, "extra_checks", None)
     extra_info = {}
     if extra:
@@ -477,6 +510,7 @@ def main_check(mod, argv):
             "translator": {"untranslatable": untr, "drift_from_golden": drift},
             "proof_broken": proof_broken,
             "model_from_golden_copy": used_golden,
+            "search_escalation": search_info,
             "coqchk": coqchk_info,
             "known_findings_hit": {k: v[1] for k, v in kf_hit.items()},
         },
